@@ -66,6 +66,17 @@ def run_case(case):
             cfg = pl.make_config(cfgd)
             edges = np.asarray(cfg.binning.edges, float)
             closed = str(cfg.binning.closed)
+            # redshifts were generated on / next to the *reference* edges (computed without the
+            # library); snap them onto the library's actual edges (comoving edges differ by ~1e-9)
+            ref = gen.binning_edges_reference(b, case["cosmology"])
+            if len(ref) == len(edges) and not np.array_equal(ref, edges):
+                z = z.copy()
+                for i in range(len(ref)):
+                    for shift in (0, 1, -1):
+                        src = ref[i] if shift == 0 else np.nextafter(ref[i], shift * np.inf)
+                        dst = edges[i] if shift == 0 else np.nextafter(edges[i], shift * np.inf)
+                        z[z == src] = dst
+                cat = dict(cat, z=z.tolist())
             catalog = pl.make_catalog(tmp / "c", cat, patch_ids=pid)
         except Exception as e:  # noqa
             ck.fail(f"setup|{exc_sig(e)}", f"{type(e).__name__}: {e}")
